@@ -68,8 +68,13 @@ class Parser(ICommParse):
     def _stream_data_get(
         self, decode: DsfmtItem, unpacked: tuple[Any, ...]
     ) -> tuple[Any, ...]:
-        if decode.dtype == EParseDataType.NUM and decode.scale:
+        if (
+            decode.dtype == EParseDataType.NUM
+            and decode.scale
+            and decode.scale != 1
+        ):
             # scale numerical data if scaling factor available
+            # (no division for unit scale - integers must stay exact)
             retdata = tuple(x / decode.scale for x in unpacked)
 
         elif decode.dtype is EParseDataType.CHAR and len(unpacked) == 1:
